@@ -48,10 +48,19 @@ def c01(tier):
 
 def c04(tier):
     tags = ['C04']
+    fam = [
+        # (b) control opcode with the 16-bit length form: all 65536 lengths; those <= 196 complete inside the stream
+        recv_spec('ctrl-len16', tags, N=4, first_opcodes=[8, 9, 10], fixed={'1': 126}, suffix='41' * 200),
+        # (a) 64-bit length form: 10 symbolic header bytes (all 2^64 lengths)
+        recv_spec('len64-header', tags, N=10, fixed={'1': 127}, no_rsv=True, first_opcodes=[1, 2, 9]),
+        # (c) Close frames: symbolic 2-byte code (all 65536 codes) + up to 3 reason bytes
+        recv_spec('close-codes', tags + ['C01'], N=7, first_opcodes=[8], no_rsv=True),
+    ]
     if tier == 'quick':
-        specs = [recv_spec('recv-N5', tags, N=5), recv_spec('recv-N4-bytewise', tags, N=4, cuts='bytewise')]
+        specs = [recv_spec('recv-N5', tags, N=5), recv_spec('recv-N4-bytewise', tags, N=4, cuts='bytewise')] + fam[:2] + \
+                [recv_spec('close-codes', tags + ['C01'], N=6, first_opcodes=[8], no_rsv=True)]
     else:
-        specs = [recv_spec('recv-N7', tags, N=7), recv_spec('recv-N6-bytewise', tags, N=6, cuts='bytewise')]
+        specs = [recv_spec('recv-N7', tags, N=7), recv_spec('recv-N6-bytewise', tags, N=6, cuts='bytewise')] + fam
     return run_property('C04', tier, specs, 'model_checking', 'protocol violations', ENV_ASSUMPTIONS, RECV_FUNCS)
 
 
@@ -121,4 +130,48 @@ def c02(tier):
                                            'compressed streams: see C06 (zlib abstracted)'], RECV_FUNCS)
 
 
-PROPS = {'C02': c02, 'C05': c05, 'C01': c01, 'C04': c04, 'C14': c14}
+BUILD_FUNCS = ['lomond.websocket.WebSocket.send_text/send_binary/send_json/send_ping/send_pong/close/_send_close',
+               'lomond.session.WebsocketSession.send/write', 'lomond.frame.Frame.build/to_bytes/build_close_payload',
+               'lomond.mask.mask_payload (+ _XOR_TABLE lemma)']
+
+
+def build_spec(kind, lens):
+    return Spec('build-' + kind, 'checks.build', 'run_build', dict(kind=kind, lens=lens, xval_stride=3),
+                what='one %s call on a connected WebSocket; symbolic payload content / code points / close code, '
+                     'symbolic 4-byte masking key from os.urandom; length chosen by a solver variable from %s; written bytes '
+                     'decoded by the RFC 6455 5.2 server-side decoder' % (kind, lens), chunk=40)
+
+
+def c03(tier):
+    from checks import build
+    q = tier == 'quick'
+    lens = build.LENS_QUICK if q else build.LENS_THOROUGH
+    specs = [build_spec('binary', lens),
+             build_spec('text', [0, 1, 2] if q else [0, 1, 2, 3]),
+             build_spec('ping', build.CTRL_LENS + [126, 127]),
+             build_spec('pong', build.CTRL_LENS + [126]),
+             build_spec('close', [0, 1, 3, 122, 123, 124, 125, 200]),
+             build_spec('close_text', [0, 1, 2]),
+             build_spec('types', [0]),
+             build_spec('json', [0])]
+
+    def pre():
+        from symlomond import symdata as sd
+        import lomond.mask as M
+        bad = sd._xor_lemma(M._XOR_TABLE)
+        st = dict(sd.XOR_LEMMA_STATS)
+        return dict(obligations=st['obligations'], discharged=st['discharged'], failed=[], limits=[],
+                    what='lemma: for every row r and byte x, _XOR_TABLE[r][x] == r ^ x (one z3 query per row on the ITE '
+                         'encoding of the real table); rows where it fails are encoded exactly, so a wrong entry stays visible',
+                    bad_rows=bad, samples=['row r: forall x. ITE(_XOR_TABLE[r])[x] == r xor x'])
+    from checks.common import lomond
+    lomond()
+    return run_property('C03', tier, specs, 'model_checking', 'client frames valid & round-trip',
+                        ENV_ASSUMPTIONS + ['content is symbolic at the first/last 8 bytes of long payloads, a fixed pattern in between '
+                                           '(the 4-lane XOR structure is periodic); lengths other than the listed ones are outside the claim',
+                                           'json.dumps is not encoded (C function): send_json is checked to route concrete objects through one text frame',
+                                           'no compression negotiated here (RSV1 with compression is C06)'],
+                        BUILD_FUNCS, pre=pre)
+
+
+PROPS = {'C03': c03, 'C02': c02, 'C05': c05, 'C01': c01, 'C04': c04, 'C14': c14}
